@@ -42,6 +42,8 @@ class Facade:
         self.stretch = stretch  # optional forced value for unit draws: ("lo"|"hi", length)
         self._prev = {}
         self._consec = {}
+        self._stretch_left = {}
+        self._stretch_left = {}
         self.reseed(seed)
         self.h = hashlib.blake2b(digest_size=12)
         self.ndraws = 0
@@ -64,6 +66,7 @@ class Facade:
         # override memory is part of the stream state: a re-seed by the code under test resets it
         self._prev = {}
         self._consec = {}
+        self._stretch_left = {}
 
     def _log(self, site, api, value, over):
         self.ndraws += 1
@@ -241,7 +244,17 @@ class Facade:
     def np_randint(self, low, high=None, size=None, dtype=int):
         site = _site()
         lo, hi = (0, low) if high is None else (low, high)
+        left = self._stretch_left.get(site, 0)
+        if left > 0 and isinstance(size, int) and size == 2 and self._prev.get(("npri", lo, hi)) is not None \
+                and self.ndraws < 0.75 * self.budget:
+            # a long run of the same (legal) pair: rejection loops must cope with any finite number of repeats
+            self._stretch_left[site] = left - 1
+            v = np.array(self._prev[("npri", lo, hi)])
+            self._log(site, "np.randint", v.tolist(), True)
+            return v
         if self._over(site) and isinstance(size, int) and size == 2 and hi - lo >= 1:
+            if self.bug.random() < 0.15:
+                self._stretch_left[site] = self.bug.choice([20, 60, 120])
             prev = self._prev.get(("npri", lo, hi))
             mode = self.bug.choice(["same", "prev", "ends"])
             if mode == "prev" and prev is not None:
